@@ -96,3 +96,24 @@ Print Assumptions C17_file_compose.
 Theorem C17_include_string_guarded : include_guard_literals = [Some (s "h"); Some (s "include")].
 Proof. exact include_string_guarded. Qed.
 Print Assumptions C17_include_string_guarded.
+
+(* ---- file level WITHOUT the prefix assumption (Proofs/LexPrefix.v): <prefix lexemes> // text <newline or end> <anything>,
+   prefix lexemes of the kinds blank / tab / newline, identifier or keyword, one-character operator, bracket, decimal constant;
+   named boundary conditions lexs_ok (decidable; see Props/C18.v) and line_end.  Prefixes holding other lexemes stay under
+   the _partial theorem above plus the test on the real lexer. *)
+From NV Require Import Proofs.LexPrefix.
+
+Theorem C17_comment_replace_file_obs : forall (uw ud : N -> bool) ls v v' tail items xf guard other f,
+  lexs_ok ls (47%N :: 47%N :: v ++ tail) = true ->
+  plain_content KLine v = true -> plain_content KLine v' = true -> List.length v' = List.length v -> line_end tail ->
+  replace_inv f = true ->
+  lex uw ud (raws ls ++ 47%N :: 47%N :: v ++ tail) = Ok (items, xf) ->
+  let x := lex_nexts pos0 ls in
+  exists later t t',
+    items = lex_items pos0 ls ++ ITok t (off x) (off x + (2 + List.length v)) :: later /\
+    lex uw ud (raws ls ++ 47%N :: 47%N :: v' ++ tail) = Ok (lex_items pos0 ls ++ ITok t' (off x) (off x + (2 + List.length v)) :: later, xf) /\
+    t_type t' = t_type t /\ t_line t' = t_line t /\ t_col t' = t_col t /\
+    t_val t = Some (47%N :: 47%N :: v) /\ t_val t' = Some (47%N :: 47%N :: v') /\
+    eval_obs guard other f (47%N :: 47%N :: v') = eval_obs guard other f (47%N :: 47%N :: v).
+Proof. exact comment_replace_file_obs. Qed.
+Print Assumptions C17_comment_replace_file_obs.
